@@ -769,8 +769,12 @@ def strict_typing_check(chk):
         chk.violation(f'strict port typing: {first[:300]}', {'translation_unit': text[-4000:], 'compiler_output': proc.stderr[:3000]},
                       {'kind': 'strict-typing'})
         return
-    run = subprocess.run([os.path.join(work, 'strict')], capture_output=True, text=True, timeout=60, check=False)
-    if run.returncode != 0:
+    try:
+        run = subprocess.run([os.path.join(work, 'strict')], capture_output=True, text=True, timeout=300, check=False)
+        failed = run.returncode != 0
+    except subprocess.TimeoutExpired:
+        failed = True
+    if failed:
         chk.violation('ConnectPorts does not tie the two ports as Dezyne\'s connect() does (StrictPort.tla ConnectLaw)',
                       {'translation_unit': text[-1500:]}, {'kind': 'strict-typing'})
 
